@@ -165,70 +165,259 @@ theorem paxBody_length_ge (recs : List (Bytes × Bytes)) : recs.length ≤ (paxB
 
 /-! ### logical members -/
 
+theorem lastIdx_split (c : UInt8) (s : Bytes) (i : Nat) (h : lastIdx c s = some i) :
+    s = s.take i ++ c :: s.drop (i + 1) ∧ i < s.length := by
+  unfold lastIdx at h
+  simp only [] at h
+  split at h
+  · cases h
+  · rename_i hne
+    injection h with hi
+    -- s.reverse = a ++ b, a the run without c, b starts with c
+    have hsplit := List.takeWhile_append_dropWhile (p := (· != c)) (l := s.reverse)
+    generalize ha : s.reverse.takeWhile (· != c) = a at hsplit hne hi
+    generalize hb : s.reverse.dropWhile (· != c) = b at hsplit
+    have hlen : a.length + b.length = s.length := by
+      have := congrArg List.length hsplit
+      simp only [List.length_append, List.length_reverse] at this; exact this
+    cases b with
+    | nil => simp at hlen; exact absurd hlen hne
+    | cons x b' =>
+      have hx : x = c := by
+        have := List.head_dropWhile_not (fun y => y != c) (l := s.reverse) (by rw [hb]; simp)
+        simp only [hb, List.head_cons] at this
+        simpa using this
+      subst hx
+      have hs : s = b'.reverse ++ x :: a.reverse := by
+        have := congrArg List.reverse hsplit
+        simp only [List.reverse_reverse, List.reverse_append, List.reverse_cons, List.append_assoc, List.singleton_append] at this
+        exact this.symm
+      simp only [List.length_cons] at hlen
+      have hi' : i = b'.length := by omega
+      subst hi'
+      constructor
+      · have h1 : s.take b'.length = b'.reverse := by rw [hs]; exact List.take_left' (by simp)
+        have h2 : s.drop (b'.length + 1) = a.reverse := by
+          rw [hs, show b'.reverse ++ x :: a.reverse = (b'.reverse ++ [x]) ++ a.reverse by simp]
+          exact List.drop_left' (by simp)
+        rw [h1, h2]; exact hs
+      · omega
+
+theorem splitUstar_join (name p q : Bytes) (h : splitUstar name = some (p, q)) : p ++ slash :: q = name ∧ p ≠ [] := by
+  unfold splitUstar at h
+  split at h
+  · cases h
+  · simp only [] at h
+    generalize hL : (if name.length > 156 then 156 else if name.getLast? = some slash then name.length - 1 else name.length) = L at h
+    have hLle : L ≤ name.length := by
+      rw [← hL]; split
+      · omega
+      · split <;> omega
+    cases hi : lastIdx slash (name.take L) with
+    | none => rw [hi] at h; cases h
+    | some i =>
+      rw [hi] at h
+      simp only [] at h
+      split at h
+      · cases h
+      · rename_i hcond
+        injection h with h
+        injection h with hp hq
+        obtain ⟨hsp, hlt⟩ := lastIdx_split slash (name.take L) i hi
+        have hiL : i < L := by simp only [List.length_take] at hlt; omega
+        have hname : name = name.take i ++ slash :: name.drop (i + 1) := by
+          have h1 : name = name.take L ++ name.drop L := (List.take_append_drop L name).symm
+          have h2 : (name.take L).take i = name.take i := by rw [List.take_take]; congr 1; omega
+          have h3 : (name.take L).drop (i + 1) ++ name.drop L = name.drop (i + 1) := by
+            conv => rhs; rw [h1]
+            rw [List.drop_append_of_le_length (by simp only [List.length_take]; omega)]
+          conv => lhs; rw [h1, hsp, h2]
+          simp only [List.append_assoc, List.cons_append, h3]
+        constructor
+        · rw [← hp, ← hq]; exact hname.symm
+        · rw [← hp]
+          intro e
+          have : (name.take i).length = 0 := by rw [e]; rfl
+          simp only [List.length_take] at this
+          have : i = 0 := by omega
+          exact hcond (Or.inl this)
+
+theorem readStr_nul (v : Bytes) (h0 : (0 : UInt8) ∉ v) : readStr (v ++ [0]) = v := by
+  unfold readStr
+  induction v with
+  | nil => simp
+  | cons a as ih =>
+    have ha : a ≠ 0 := fun e => h0 (by simp [e])
+    have : (a != 0) = true := by simpa using ha
+    simp only [List.cons_append, List.takeWhile_cons, this, if_true]
+    rw [ih (fun hm => h0 (List.mem_cons_of_mem _ hm))]
+
 /-- what the format can express for a logical member -/
 structure PMemberOK (m : PMember) : Prop where
   notX : m.hdr.typeflag ≠ 120
+  notL : m.hdr.typeflag ≠ 76
+  notK : m.hdr.typeflag ≠ 75
   recs : RecsOK m.pax
   /-- a `path` / `linkpath` record carries the member's own name / link name -/
   pathRec : ∀ v, lookupB (b!"path") m.pax = some v → v = m.hdr.name
   linkRec : ∀ v, lookupB (b!"linkpath") m.pax = some v → v = m.hdr.linkname
+  /-- the prefix field belongs to the rendering, not to the logical member -/
+  noPfx : m.hdr.pfx = []
+  /-- GNU members carry no extension records; their long names travel NUL-terminated -/
+  gnuPlain : m.hdr.flavor = .gnu → m.pax = [] ∧ (0 : UInt8) ∉ m.hdr.name ∧ (0 : UInt8) ∉ m.hdr.linkname
+
+theorem hdr_ext (a b : Hdr) (h1 : a.flavor = b.flavor) (h2 : a.name = b.name) (h3 : a.mode = b.mode) (h4 : a.uid = b.uid)
+    (h5 : a.gid = b.gid) (h6 : a.size = b.size) (h7 : a.mtime = b.mtime) (h8 : a.typeflag = b.typeflag)
+    (h9 : a.linkname = b.linkname) (h10 : a.uname = b.uname) (h11 : a.gname = b.gname) (h12 : a.dev = b.dev)
+    (h13 : a.pfx = b.pfx) : a = b := by
+  cases a; cases b; simp_all
+
+theorem pmember_ext (m : PMember) (h : Hdr) (px : List (Bytes × Bytes)) (b : Bytes) (hh : h = m.hdr) (hp : px = m.pax)
+    (hb : b = m.body) : ({ hdr := h, pax := px, body := b } : PMember) = m := by
+  subst hh hp hb; cases m; rfl
+
+/-- the rendering changes only name, link name and prefix -/
+theorem mainHdr_fields (m : PMember) :
+    (mainHdr m).flavor = m.hdr.flavor ∧ (mainHdr m).mode = m.hdr.mode ∧ (mainHdr m).uid = m.hdr.uid ∧ (mainHdr m).gid = m.hdr.gid
+    ∧ (mainHdr m).size = m.hdr.size ∧ (mainHdr m).mtime = m.hdr.mtime ∧ (mainHdr m).typeflag = m.hdr.typeflag
+    ∧ (mainHdr m).uname = m.hdr.uname ∧ (mainHdr m).gname = m.hdr.gname ∧ (mainHdr m).dev = m.hdr.dev := by
+  unfold mainHdr
+  split
+  · exact ⟨rfl, rfl, rfl, rfl, rfl, rfl, rfl, rfl, rfl, rfl⟩
+  · simp only []
+    split
+    · exact ⟨rfl, rfl, rfl, rfl, rfl, rfl, rfl, rfl, rfl, rfl⟩
+    · split <;> exact ⟨rfl, rfl, rfl, rfl, rfl, rfl, rfl, rfl, rfl, rfl⟩
+
+theorem gnuLong_typeflag (tf : UInt8) (v : Bytes) : (gnuLongMember tf v).hdr.typeflag = tf := rfl
+theorem gnuLong_body (tf : UInt8) (v : Bytes) : (gnuLongMember tf v).body = v ++ [0] := rfl
+
+/-- the ordinary member of a GNU logical member resolves to the logical member, given what 'L' / 'K' announced -/
+theorem resolve_gnu (m : PMember) (hm : PMemberOK m) (hg : m.hdr.flavor = .gnu) (rest : List Member) :
+    collapseP { name := if m.hdr.name.length > 100 then some m.hdr.name else none,
+                link := if m.hdr.linkname.length > 100 then some m.hdr.linkname else none }
+        ({ hdr := mainHdr m, body := m.body } :: rest)
+      = (collapseP {} rest).map (m :: ·) := by
+  obtain ⟨hpax, _, _⟩ := hm.gnuPlain hg
+  obtain ⟨f1, f2, f3, f4, f5, f6, f7, f8, f9, f10⟩ := mainHdr_fields m
+  have hname : (mainHdr m).name = m.hdr.name.take 100 := by unfold mainHdr; rw [hg]
+  have hlink : (mainHdr m).linkname = m.hdr.linkname.take 100 := by unfold mainHdr; rw [hg]
+  have hpfx : (mainHdr m).pfx = [] := by unfold mainHdr; rw [hg]; exact hm.noPfx
+  conv => lhs; unfold collapseP
+  rw [if_neg (by show ¬ (mainHdr m).typeflag = 120; rw [f7]; exact hm.notX),
+    if_neg (by show ¬ (mainHdr m).typeflag = 76; rw [f7]; exact hm.notL),
+    if_neg (by show ¬ (mainHdr m).typeflag = 75; rw [f7]; exact hm.notK)]
+  simp only [Option.getD_none, lookupB]
+  congr 1
+  funext x
+  congr 1
+  apply pmember_ext
+  · apply hdr_ext <;> simp only [f1, f2, f3, f4, f5, f6, f7, f8, f9, f10, hm.noPfx]
+    · split
+      · rfl
+      · simp only [Option.getD_none, hpfx, if_true, hname]; exact List.take_of_length_le (by omega)
+    · split
+      · rfl
+      · simp only [Option.getD_none, hlink]; exact List.take_of_length_le (by omega)
+  · exact hpax.symm
+  · rfl
+
+/-- the ordinary member of a USTAR/PAX logical member resolves to the logical member, given its records -/
+theorem resolve_ustar (m : PMember) (hm : PMemberOK m) (hu : m.hdr.flavor = .ustar) (rest : List Member) :
+    collapseP { recs := if m.pax = [] then none else some m.pax } ({ hdr := mainHdr m, body := m.body } :: rest)
+      = (collapseP {} rest).map (m :: ·) := by
+  obtain ⟨f1, f2, f3, f4, f5, f6, f7, f8, f9, f10⟩ := mainHdr_fields m
+  have hrecs : (if m.pax = [] then none else some m.pax : Option (List (Bytes × Bytes))).getD [] = m.pax := by
+    split
+    · rename_i h; simp [h]
+    · rfl
+  have hn : (lookupB (b!"path") m.pax).getD (if (mainHdr m).pfx = [] then (mainHdr m).name else (mainHdr m).pfx ++ slash :: (mainHdr m).name) = m.hdr.name := by
+    unfold mainHdr; rw [hu]; simp only []
+    cases hl : lookupB (b!"path") m.pax with
+    | some v => simp [hm.pathRec v hl]
+    | none =>
+      simp only [Option.isSome_none, Bool.false_eq_true, if_false, Option.getD_none]
+      cases hs : splitUstar m.hdr.name with
+      | none => simp only [hm.noPfx, if_true]
+      | some ps =>
+        obtain ⟨p, q⟩ := ps
+        obtain ⟨hj, hne⟩ := splitUstar_join m.hdr.name p q hs
+        simp only [hne, if_false, hj]
+  have hl : (lookupB (b!"linkpath") m.pax).getD (mainHdr m).linkname = m.hdr.linkname := by
+    unfold mainHdr; rw [hu]; simp only []
+    cases hl : lookupB (b!"linkpath") m.pax with
+    | some v => simp [hm.linkRec v hl]
+    | none => simp
+  conv => lhs; unfold collapseP
+  rw [if_neg (by show ¬ (mainHdr m).typeflag = 120; rw [f7]; exact hm.notX),
+    if_neg (by show ¬ (mainHdr m).typeflag = 76; rw [f7]; exact hm.notL),
+    if_neg (by show ¬ (mainHdr m).typeflag = 75; rw [f7]; exact hm.notK)]
+  simp only [Option.getD_none, hrecs, hn, hl]
+  congr 1
+  funext x
+  congr 1
+  apply pmember_ext
+  · apply hdr_ext <;> simp only [f1, f2, f3, f4, f5, f6, f7, f8, f9, f10, hm.noPfx]
+  · rfl
+  · rfl
+
+/-- one logical member off the front -/
+theorem collapseP_expand (m : PMember) (hm : PMemberOK m) (rest : List Member) :
+    collapseP {} (expand m ++ rest) = (collapseP {} rest).map (m :: ·) := by
+  unfold expand
+  cases hf : m.hdr.flavor with
+  | gnu =>
+    obtain ⟨_, hn0, hl0⟩ := hm.gnuPlain hf
+    simp only []
+    by_cases h1 : m.hdr.name.length > 100 <;> by_cases h2 : m.hdr.linkname.length > 100
+    · simp only [h1, h2, if_true, List.cons_append, List.nil_append]
+      conv => lhs; unfold collapseP
+      simp only [gnuLong_typeflag, gnuLong_body, readStr_nul _ hn0, if_true, if_false, Option.isSome_none, Bool.false_eq_true,
+        show ¬ ((76 : UInt8) = 120) from by decide, show ¬ ((76 : UInt8) = 75) from by decide]
+      conv => lhs; unfold collapseP
+      simp only [gnuLong_typeflag, gnuLong_body, readStr_nul _ hl0, if_true, if_false, Option.isSome_none, Bool.false_eq_true,
+        show ¬ ((75 : UInt8) = 120) from by decide, show ¬ ((75 : UInt8) = 76) from by decide]
+      have := resolve_gnu m hm hf rest
+      simpa [h1, h2] using this
+    · simp only [h1, h2, if_true, if_false, List.cons_append, List.nil_append, List.append_nil]
+      conv => lhs; unfold collapseP
+      simp only [gnuLong_typeflag, gnuLong_body, readStr_nul _ hn0, if_true, if_false, Option.isSome_none, Bool.false_eq_true,
+        show ¬ ((76 : UInt8) = 120) from by decide, show ¬ ((76 : UInt8) = 75) from by decide]
+      have := resolve_gnu m hm hf rest
+      simpa [h1, h2] using this
+    · simp only [h1, h2, if_true, if_false, List.cons_append, List.nil_append]
+      conv => lhs; unfold collapseP
+      simp only [gnuLong_typeflag, gnuLong_body, readStr_nul _ hl0, if_true, if_false, Option.isSome_none, Bool.false_eq_true,
+        show ¬ ((75 : UInt8) = 120) from by decide, show ¬ ((75 : UInt8) = 76) from by decide]
+      have := resolve_gnu m hm hf rest
+      simpa [h1, h2] using this
+    · simp only [h1, h2, if_false, List.nil_append]
+      have := resolve_gnu m hm hf rest
+      simpa [h1, h2] using this
+  | ustar =>
+    simp only []
+    by_cases hp : m.pax = []
+    · simp only [hp, if_true, List.nil_append]
+      have := resolve_ustar m hm hf rest
+      simpa [hp] using this
+    · simp only [hp, if_false, List.cons_append, List.nil_append]
+      conv => lhs; unfold collapseP
+      have hx : (xHdr m.hdr.name (paxBody m.pax).length).typeflag = 120 := rfl
+      simp only [hx, if_true, Option.isSome_none, Bool.false_eq_true, if_false]
+      rw [parseRecords_paxBody m.pax hm.recs _ (by have := paxBody_length_ge m.pax; omega)]
+      simp only []
+      have := resolve_ustar m hm hf rest
+      simpa [hp] using this
 
 theorem collapse_expand (ms : List PMember) (ok : ∀ m ∈ ms, PMemberOK m) :
     collapse (ms.flatMap expand) = some ms := by
+  unfold collapse
   induction ms with
-  | nil => simp [collapse]
+  | nil => simp [collapseP]
   | cons m rest ih =>
-    have hm := ok m (by simp)
-    have ihr := ih (fun x hx => ok x (List.mem_cons_of_mem _ hx))
     simp only [List.flatMap_cons]
-    by_cases hp : m.pax = []
-    · have he : expand m = [{ hdr := m.hdr, body := m.body }] := by simp [expand, hp]
-      rw [he]
-      have hmm : ({ hdr := m.hdr, body := m.body } : PMember) = m := by
-        cases m; simp only [PMember.mk.injEq, true_and]; simp at hp; exact ⟨hp.symm, trivial⟩
-      cases hr : rest.flatMap expand with
-      | nil =>
-        rw [hr] at ihr
-        simp only [List.singleton_append]
-        unfold collapse
-        simp only [hm.notX, if_false]
-        cases rest with
-        | nil => simp [hmm]
-        | cons r rs =>
-          exfalso
-          simp only [List.flatMap_cons] at hr
-          have : (expand r).length = 0 := by
-            have := congrArg List.length hr
-            simp only [List.length_append, List.length_nil] at this; omega
-          unfold expand at this; split at this <;> simp at this
-      | cons a as =>
-        rw [hr] at ihr
-        simp only [List.singleton_append]
-        unfold collapse
-        simp only [hm.notX, if_false, ihr, Option.map_some, hmm]
-    · have he : expand m = [{ hdr := xHdr m.hdr.name (paxBody m.pax).length, body := paxBody m.pax }, { hdr := mainHdr m, body := m.body }] := by
-        simp [expand, hp]
-      rw [he]
-      simp only [List.cons_append, List.nil_append]
-      unfold collapse
-      have hx : (xHdr m.hdr.name (paxBody m.pax).length).typeflag = 120 := rfl
-      have hmt : (mainHdr m).typeflag = m.hdr.typeflag := rfl
-      simp only [hx, if_true, hmt, hm.notX, if_false]
-      rw [parseRecords_paxBody m.pax hm.recs _ (by have := paxBody_length_ge m.pax; omega)]
-      simp only [ihr, Option.map_some]
-      -- the records put the full name and link name back
-      have hn : (lookupB (b!"path") m.pax).getD (mainHdr m).name = m.hdr.name := by
-        unfold mainHdr
-        cases hl : lookupB (b!"path") m.pax with
-        | none => simp
-        | some v => simp [hm.pathRec v hl]
-      have hln : (lookupB (b!"linkpath") m.pax).getD (mainHdr m).linkname = m.hdr.linkname := by
-        unfold mainHdr
-        cases hl : lookupB (b!"linkpath") m.pax with
-        | none => simp
-        | some v => simp [hm.linkRec v hl]
-      rw [hn, hln]
-      rfl
+    rw [collapseP_expand m (ok m (by simp)), ih (fun x hx => ok x (List.mem_cons_of_mem _ hx))]
+    rfl
 
 end Nfpm.Tar
 
@@ -401,6 +590,7 @@ theorem xMember_ok (name body : Bytes) (h0 : (0 : UInt8) ∉ name) (hs : body.le
   obtain ⟨hl, hn⟩ := xName_ok name h0
   exact { hdr := { nameLen := hl, nameNul := hn, linkLen := by simp [xHdr], linkNul := by simp [xHdr],
                    unameLen := by simp [xHdr], unameNul := by simp [xHdr], gnameLen := by simp [xHdr], gnameNul := by simp [xHdr],
+                   prefixLen := by simp [xHdr], prefixNul := by simp [xHdr],
                    mode := by show 0 < numBound .ustar 8; decide, uid := by show 0 < numBound .ustar 8; decide, gid := by show 0 < numBound .ustar 8; decide,
                    size := by simpa [xHdr, numBound] using hs, mtime := by show 0 < numBound .ustar 12; decide },
           size := rfl }
